@@ -2,7 +2,7 @@
    Only statements, each closed by [exact]; proofs live in Lemmas/. *)
 From Model Require Import Examples.
 From Model Require Import Api.
-From Lemmas Require Import StatusLemmas LedgerLemmas HistoryLemmas HistoryLemmas2 HistoryLemmas3 HistoryLemmas4 ApiLemmas.
+From Lemmas Require Import StatusLemmas LedgerLemmas HistoryLemmas HistoryLemmas2 HistoryLemmas3 HistoryLemmas4 ApiLemmas ApiReflect ApiInvariant.
 From Corr Require Import Chain.
 Open Scope Z_scope.
 
@@ -66,6 +66,27 @@ Proof. exact desc_is_permutation. Qed.
 Theorem C17_api_status : forall s b, hist_wf s -> In b (hist s) -> query_status s (hb_hash b) = (hb_height b, hb_exec b).
 Proof. exact query_status_spec. Qed.
 Print Assumptions C17_api_status.
+(* Every state the model can reach has well-formed history tables except, possibly, for "one batch row per hash": the primary keys
+   of the transaction and lookup tables and both foreign-key facts are invariants of every chain, whatever it contains ... *)
+Theorem C17_history_tables_well_formed_after_every_chain : forall c bs s m,
+  replay c genesis empty_cache bs = Done (s, m) -> hist_wf_weak s.
+Proof. exact replay_hist_wf_weak. Qed.
+Print Assumptions C17_history_tables_well_formed_after_every_chain.
+(* ... so the API theorems hold after every chain whose batch hashes are distinct (the hypothesis of C17_history_replays_every_chain) *)
+Theorem C17_api_after_every_chain : forall c bs s m,
+  replay c genesis empty_cache bs = Done (s, m) -> NoDup (map hb_hash (hist s)) -> hist_wf s.
+Proof. exact replay_hist_wf. Qed.
+(* and that hypothesis is needed: a reachable state with two batch rows for one hash (a factoid transaction id equal to a mock id of
+   the zeroing at the developer-reward activation), where the query by hash returns every action twice *)
+Check reachable_duplicate_batch_hash.
+
+(* [hist_wfb] is an executable test of hist_wf (sound: hist_wfb s = true -> hist_wf s); the chain correspondence evaluates it on
+   the model's final state of every chain, so on those states the two statements below hold unconditionally. *)
+Theorem C17_api_on_a_tested_state : forall s q fuel,
+  hist_wfb s = true -> (S (length (query_all s q)) <= fuel)%nat ->
+  query_count s q = length (query_all s q) /\ walk_pages fuel s q 0 = query_all s q.
+Proof. exact api_walk_on_tested_state. Qed.
+Print Assumptions C17_api_on_a_tested_state.
 (* "one batch row per hash" is NOT implied by the schema (UNIQUE(entry_hash, height) only): with a second batch row for a
    hash the address count (60) falls short of the joined rows (120) and the walk omits 20 of them — the shape of the one
    id reuse at 260118 (DESIGN.md section 15).  The check evaluates hist_wf on the final state of every chain it runs. *)
